@@ -7,6 +7,7 @@ import sys
 from hypothesis import strategies as st
 
 from .. import gen
+from .. import driver
 from ..driver import call, fresh, stub
 from ..history import Run, draw_op, replay
 from ..oracle.schema import schema
@@ -89,7 +90,9 @@ def check_case(case):
 def replay_case(rec):
     inp = rec['input']
     if inp.get('panel'):
-        return check_panel(inp['types'])
+        # replay on the full panel: the dependence may come from any other class
+        s = schema()
+        return check_panel(sorted(dict(gen.types_and_elements())), sorted(s.element_type))
     return check_case(inp)
 
 
@@ -115,29 +118,66 @@ def fingerprint(tkey, el):
     return h(out)
 
 
-def panel(types):
+def value_fingerprint(el):
+    """attribute-table names and value acceptance of one element class (fresh instances only)"""
+    from ..oracle import lexical
+    s = schema()
+    t = s.element_type[el]
+    cls = driver.cls_for(el)
+    out = []
+    r = call(lambda: sorted((a.name, bool(a.is_required)) for a in cls.TYPE.get_xsd_attributes())) \
+        if t in s.complex else None
+    out.append(r.value if (r is not None and r.ok) else (r.etype if r is not None else None))
+    tt = s.text_type(t)
+    if tt is not None:
+        # acceptance of every literal of the type, of its ancestors' / relatives' literals, and of near misses
+        cands = list(lexical.valid_texts(tt, limit=0)) + list(lexical.invalid_texts(tt))
+        ti = lexical.info(tt)
+        if ti.union is None and ti.base and ti.base in s.simple:
+            cands += lexical.valid_texts(ti.base, limit=0)
+        for txt in cands:
+            ok, pv = lexical.python_value_for(tt, txt) if lexical.valid(tt, txt) else (True, txt)
+            out.append([txt, call(cls, pv if ok else txt, xsd_check=False).verdict()])
+    return h(out)
+
+
+def panel(types, elements=(), reverse=False):
     te = dict(gen.types_and_elements())
-    return {t: fingerprint(t, te[t][0]) for t in types}
+    order = sorted(types, reverse=reverse)
+    out = {t: fingerprint(t, te[t][0]) for t in order}
+    for el in sorted(elements, reverse=reverse):
+        out['@' + el] = value_fingerprint(el)
+    return out
 
 
-def pristine_panel(types):
+def pristine_panel(types, elements=()):
+    # fresh interpreter that has only imported the library; EACH fingerprint is computed in its own forked child, so
+    # nothing at all was built before it in that process
     code = ('import sys, json, warnings; warnings.filterwarnings("ignore"); '
-            'from mxv.props.c13 import panel; print(json.dumps(panel(json.loads(sys.argv[1]))))')
+            'from mxv.props.c13 import panel; from mxv.sched import in_child; a = json.loads(sys.argv[1]); out = {}\n'
+            'for t in a[0]: out.update(in_child(lambda t=t: panel([t], [])))\n'
+            'for e in a[1]: out.update(in_child(lambda e=e: panel([], [e])))\n'
+            'print(json.dumps(out))')
     env = dict(os.environ)
-    out = subprocess.run([sys.executable, '-B', '-W', 'ignore', '-c', code, json.dumps(types)], env=env,
+    out = subprocess.run([sys.executable, '-B', '-W', 'ignore', '-c', code, json.dumps([types, list(elements)])],
+                         env=env,
                          capture_output=True, text=True, timeout=600)
     if out.returncode != 0:
         raise RuntimeError('pristine panel subprocess failed: ' + out.stderr[-500:])
     return json.loads(out.stdout.strip().splitlines()[-1])
 
 
-def check_panel(types):
-    here = panel(types)
-    clean = pristine_panel(types)
-    bad = sorted(t for t in types if here[t] != clean[t])
+def check_panel(types, elements=()):
+    # this process: after its campaign, and in REVERSE order; reference: a brand-new interpreter, forward order.
+    # Any dependence of a fresh instance's behaviour on what was built before it shows as a difference.
+    here = panel(types, elements, reverse=True)
+    clean = pristine_panel(types, elements)
+    bad = sorted(t for t in clean if here.get(t) != clean[t])
     if bad:
-        return {'kind': 'fresh-instance-behaviour-changed', 'type': bad[0], 'site': None,
-                'input': {'panel': True, 'types': bad}, 'observed': 'fingerprint differs from a pristine process',
+        return {'kind': 'fresh-instance-behaviour-changed', 'type': bad[0].lstrip('@'), 'site': None,
+                'input': {'panel': True, 'types': [b for b in bad if not b.startswith('@')],
+                          'elements': [b[1:] for b in bad if b.startswith('@')]},
+                'observed': 'fingerprint differs from a pristine process',
                 'expected': 'a fresh instance behaves as in a brand-new process'}
     return None
 
@@ -214,9 +254,13 @@ def run_shard(ctx, shard, acc):
 
     hyp_search(acc, body, mix(ctx.seed, 'C13', shard['index']), ctx.budget(500, 10000))
     # process panel for this shard's share of types, after the campaign above ran in this process
-    types = sorted(by_type)[shard['index']::shard['n']]
-    f = check_panel(types)
-    acc.case({'panel': True, 'types': types}, True, len(types))
+    # every shard fingerprints the FULL panel (structure of all 94 types, attribute tables and value acceptance of
+    # all 441 classes); shards differ in the campaign that ran before it
+    types = sorted(by_type)
+    elements = sorted(s.element_type)
+    f = check_panel(types, elements) if shard['index'] % 4 == 0 else None
+    acc.case({'panel': True, 'after_shard': shard['index']}, True, len(types) + len(elements))
     acc.count('panel-types', len(types))
+    acc.count('panel-classes', len(elements))
     if f:
         acc.fail(f, raise_=False)
